@@ -25,7 +25,7 @@ RULE = ('Hypothesis-generated histories over populations of 2-6 recorder handler
         'callback has a live receiver of the right class; after forget + gc.collect() the harness weakref is '
         'dead; every dispatch returns normally and reaches exactly the surviving registered listeners once '
         '(a listener killed during that dispatch: 0 or 1). '
-        'In ~12% of the cases every direct dispatch is repeated 64-150 times (hot events). '
+        'In ~12% of the cases every direct dispatch is repeated 64-150 times (hot events). Handlers may exist and be registered before the history starts; a strike operation arms a killer and at once dispatches an event killer and victim both listen to; a killer callback may first dispatch another event itself (a dispatch nested in the dispatch) and only then make its victim disappear. The injected ordered set fails like the built-in set when it is changed while being iterated. '
         ''
         'Every third dispatch carries keyword arguments; in a third of the cases every handler gets a weakref.finalize callback (registered after it was added) that dispatches one of its events while the handler dies. '
         'Non-trivial = a handler died during a dispatch while '
@@ -71,7 +71,7 @@ class OrderedSet(set):
         run = OrderedSet.run
         items = list(set.__iter__(self))
         if run is None or run.perm is None:
-            return iter(items)
+            return self._guarded(items)
         run.order_used += 1
 
         def rank(item):
@@ -80,7 +80,18 @@ class OrderedSet(set):
             except Exception:
                 slot = 99
             return run.perm.index(slot) if slot in run.perm else 99
-        return iter(sorted(items, key=rank))
+        return self._guarded(sorted(items, key=rank))
+
+    def _guarded(self, items):
+        # like the built-in set: changing the set while it is being iterated is an error (the harness-chosen order
+        # must not make a loop over the live listener set any safer than it is)
+        n0 = len(items)
+        for item in items:
+            if len(self) != n0:
+                raise RuntimeError('Set changed size during iteration')
+            yield item
+        if len(self) != n0:
+            raise RuntimeError('Set changed size during iteration')
 
 
 def perm_of(n, k):
@@ -97,22 +108,27 @@ def decode_op(t):
     sel, p = t
     d = [(p >> (4 * i)) & 15 for i in range(4)]
     kind = ('add', 'add', 'remove', 'forget', 'forget', 'dispatch', 'dispatch', 'dispatch', 'deferred', 'arm', 'arm',
-            'arm', 'gc', 'deferred')[sel % 14]
+            'arm', 'gc', 'deferred', 'strike', 'strike')[sel % 16]
     if kind in ('add', 'remove', 'forget'):
         return [kind, d[0] % 6]
     if kind in ('dispatch', 'deferred'):
         return [kind, d[0], (p >> 4) % 1440]       # perm selector: odd -> injected order
+    if kind == 'strike':
+        # arm a killer and at once dispatch an event that killer and victim both listen to (if there is one)
+        return ['strike', d[0] % 6, d[1] % 6, (0, 1, 2, 3, 4, 5, 4, 5)[d[2] % 8], (p >> 4) % 1440]
     if kind == 'arm':
-        return ['arm', d[0] % 6, d[1] % 6, (0, 1, 2, 3, 3, 0)[d[2] % 6]]
+        return ['arm', d[0] % 6, d[1] % 6, (0, 1, 2, 3, 3, 0, 4, 5, 4, 5, 0, 1, 2, 3, 4, 5)[d[2]]]
     return ['gc']
 
 
 def strategy():
-    op = st.tuples(st.integers(0, 13), worldops.packed(16 ** 4)).map(decode_op)
+    op = st.tuples(st.integers(0, 15), worldops.packed(16 ** 4)).map(decode_op)
     return st.fixed_dictionaries({
         'mode': st.integers(0, 1),
         'handlers': st.lists(st.integers(0, 7), min_size=2, max_size=6),     # 0: a handler listening to nothing
         'ops': worldops.chunked(op, 36),
+        # which handlers exist and are registered before the history starts (a third of the cases: all of them)
+        'reg': worldops.packed(64 * 3).map(lambda v: 63 if v % 3 == 0 else v // 3),
         # scale: 0, or how many times every (direct) dispatch of the history is repeated
         'amp': worldops.size_amp(none=24),
         # finalizers: the program attaches a weakref.finalize to every handler it creates, which dispatches an event
@@ -176,7 +192,8 @@ class Run:
         self.frame['calls'].append(cls_ix)
         receiver = None
         # (callbacks reached by a dispatch that a finalizer issued are passive: their scripts stay armed)
-        script = self.scripts.pop(cls_ix, None) if 'finalizer_of' not in self.frame else None
+        script = self.scripts.pop(cls_ix, None) if ('finalizer_of' not in self.frame
+                                                    and 'nested_from' not in self.frame) else None
         if script is not None:
             # (a handler whose callback is running is referenced by that call: dropping the program's references
             # cannot make it go away before the callback returns - also when the drop comes from a nested dispatch)
@@ -184,10 +201,47 @@ class Run:
             try:
                 if script[1] == 3:
                     self.clear_all(from_callback=cls_ix)
+                elif script[1] >= 4:
+                    # the callback first dispatches another event itself (a dispatch nested in this one), and only
+                    # then makes the other handler disappear - still in the middle of the outer dispatch
+                    self.ping(cls_ix)
+                    self.kill(script[0], script[1] - 4, from_callback=cls_ix)
+                    self.flags['death_after_a_nested_dispatch'] += 1
                 else:
                     self.kill(script[0], script[1], from_callback=cls_ix)
             finally:
                 self.executing.pop()
+
+    def ping(self, cls_ix):
+        cur = self.frame
+
+        def listeners(e):
+            return [k for k in range(self.n) if self.registered[k] and self.alive(k) and e in self.classes[k].evs]
+        cands = [e for e in EVENTS if e != cur['ev'] and listeners(e)]
+        ev = cands[0] if cands else cur['ev']
+        start = listeners(ev)
+        self.outer.append(cur)
+        self.frame = {'ev': ev, 'calls': [], 'killed': set(), 'nested_from': cls_ix}
+        try:
+            self.d.dispatch(ev, 'dispatched from inside a callback')
+        except PropertyViolation:
+            raise
+        except Exception as exc:
+            self.viol('dispatch_raised', event=ev, exception=repr(exc), dispatched_from='a callback of %r' % cur['ev'])
+        finally:
+            nested, self.frame = self.frame, cur
+            self.outer.pop()
+        counts = collections.Counter(nested['calls'])
+        for i in start:
+            n = counts.get(i, 0)
+            if not (n in (0, 1) if i in nested['killed'] else n == 1):
+                self.viol('surviving_registered_listener_reached_exactly_once', event=ev, handler=i, calls=n,
+                          dispatched_from='a callback of %r' % cur['ev'])
+        for i in counts:
+            if i not in start:
+                self.viol('dispatch_reached_a_handler_that_is_gone_or_not_registered', event=ev, handler=i,
+                          dispatched_from='a callback of %r' % cur['ev'])
+        self.flags['dispatch_nested_in_a_dispatch'] += 1
 
     def kill(self, j, how, from_callback=None):
         """make handler j disappear (its last strong reference goes away)."""
@@ -341,6 +395,12 @@ class Run:
         others = [k for k in reg if k != i]
         j = others[j % len(others)] if others and j < 5 else j % self.n
         self.scripts[i] = (j, how)
+        return i, j
+
+    def op_strike(self, i, j, how, psel):
+        i, j = self.op_arm(i, j, how)
+        common = [e for e in EVENTS if e in self.classes[i].evs and e in self.classes[j % self.n].evs]
+        self.op_dispatch(12 + EVENTS.index(common[psel % len(common)]) if common else psel % 12, psel)
 
     def op_deferred(self, evsel, psel):
         """the same event, postponed: disable, dispatch, then the enabling assignment delivers it."""
@@ -410,6 +470,9 @@ class Run:
         desper.events.__dict__['set'] = OrderedSet
         try:
             self.d = desper.World() if self.mode else desper.EventDispatcher()
+            for i in range(self.n):
+                if self.case.get('reg', 0) >> i & 1:
+                    self.op_add(i)
             for self.step_ix, op in enumerate(self.case['ops']):
                 getattr(self, 'op_' + op[0])(*op[1:])
                 if self.pending_violation is not None:
